@@ -681,6 +681,188 @@ ctl('j3-module-keeps-old-session', 'C03', 'J3', OD,
 	m.currentParticipant = p
 """, 'odal.(*Module).Init')
 
+
+HD = 'websocket/handler.go'
+# ---- concurrency
+ctl('f1-getter-without-lock', 'C09', 'F1', SE,
+    """func (s *Session) EntityByID(id uint32) (*Entity, bool) {
+	s.entityMutex.RLock()
+	defer s.entityMutex.RUnlock()
+""",
+    """func (s *Session) EntityByID(id uint32) (*Entity, bool) {
+""", 'Session.entities')
+ctl('f1-write-under-read-lock', 'C09', 'F1', SE,
+    """func (s *Session) AddEntity(e *Entity) {
+	s.entityMutex.Lock()
+	defer s.entityMutex.Unlock()
+""",
+    """func (s *Session) AddEntity(e *Entity) {
+	s.entityMutex.RLock()
+	defer s.entityMutex.RUnlock()
+""", 'Session.entities')
+ctl('f1-grid-lock-dropped', 'C09', 'F1', DG,
+    """	m.state.mutex.Lock()
+	debugInfo := m.state.SpatialPartition.GetDebugInfo()
+	m.state.mutex.Unlock()
+""",
+    """	debugInfo := m.state.SpatialPartition.GetDebugInfo()
+""", 'RegularGrid')
+ctl('f3-lock-order-inverted', 'C09', 'F3', EN,
+    """func (s *EntityComponentStore) ListAll() []*hagallpb.EntityComponent {
+	s.mutex.RLock()
+	defer s.mutex.RUnlock()
+""",
+    """func (s *EntityComponentStore) ListAll() []*hagallpb.EntityComponent {
+	s.mutex.RLock()
+	defer s.mutex.RUnlock()
+	s.subscriptionMutex.RLock()
+	defer s.subscriptionMutex.RUnlock()
+""", 'order[')
+ctl('f3-reentrant-read-lock', 'C09', 'F3', SE,
+    """	for _, p := range s.participants {
+		if p == sender {
+			continue
+		}
+		p.Responder.SendMsg(msg)
+	}""",
+    """	if s.ParticipantCount() < 2 {
+		return
+	}
+	for _, p := range s.participants {
+		if p == sender {
+			continue
+		}
+		p.Responder.SendMsg(msg)
+	}""", 'reentrant[Session.participantMutex]')
+ctl('f5-guarded-map-handed-out', 'C09', 'F5', SE,
+    """func (s *Session) ParticipantCount() int {""",
+    """func (s *Session) ParticipantMap() map[uint32]*Participant {
+	s.participantMutex.RLock()
+	defer s.participantMutex.RUnlock()
+
+	return s.participants
+}
+
+func (s *Session) ParticipantCount() int {""", 'ParticipantMap')
+ctl('f6-lock-leaked-on-early-return', 'C09', 'F6', EN,
+    """func (s *EntityComponentStore) Delete(entityComponentTypeID uint32, entityID uint32) bool {
+	s.mutex.Lock()
+	defer s.mutex.Unlock()
+
+	entityComponents, ok := s.entityComponents[entityComponentTypeID]
+	if !ok {
+		return false
+	}
+
+	_, ok = entityComponents[entityID]
+	delete(entityComponents, entityID)
+	return ok
+}""",
+    """func (s *EntityComponentStore) Delete(entityComponentTypeID uint32, entityID uint32) bool {
+	s.mutex.Lock()
+
+	entityComponents, ok := s.entityComponents[entityComponentTypeID]
+	if !ok {
+		return false
+	}
+
+	_, ok = entityComponents[entityID]
+	delete(entityComponents, entityID)
+	s.mutex.Unlock()
+	return ok
+}""", 'Delete')
+ctl('e8a-check-then-act-split', 'C10', 'E8a', EN,
+    """func (s *EntityComponentStore) AddType(name string) uint32 {
+	s.mutex.Lock()
+	defer s.mutex.Unlock()
+
+	if eaID, ok := s.idIndex[name]; ok {
+		return eaID
+	}
+""",
+    """func (s *EntityComponentStore) AddType(name string) uint32 {
+	s.mutex.RLock()
+	eaID, ok := s.idIndex[name]
+	s.mutex.RUnlock()
+	if ok {
+		return eaID
+	}
+
+	s.mutex.Lock()
+	defer s.mutex.Unlock()
+""", 'AddType')
+ctl('f4-main-loop-waits-for-itself', 'C08', 'F4', HD,
+    """	select {
+	case h.disconnectChan <- err:
+	default:
+		// A disconnection is already pending: one cause is enough, and the
+		// main loop, which also reports failures, must never wait for itself.
+	}""",
+    """	h.disconnectChan <- err""", 'self-wait[handler.disconnectChan]', 'the defect fixed in handler.disconnect, re-introduced')
+ctl('g2-panic-reaches-deferred-close', 'C08', 'G2', HD,
+    """			if err := h.safeHandleMessage(ctx, msg, responder); err != nil {""",
+    """			if err := h.handleMessage(ctx, msg, responder); err != nil {""", 'deferred-close-vs-panic', 'the defect fixed by safeHandleMessage, re-introduced')
+ctl('e5-dispatch-failure-not-reported', 'C08', 'E5', HD,
+    """			if err = h.dispatcher.Dispatch(ctx, msg); err != nil {
+				h.disconnect(errors.New("dispatching message failed").Wrap(err))
+				return
+			}""",
+    """			if err = h.dispatcher.Dispatch(ctx, msg); err != nil {
+				return
+			}""", 'startReceiving:failure-reaches-disconnect')
+ctl('e5-idle-arm-bypasses-funnel', 'C08', 'E5', HD,
+    """		case <-idleTimer.C:
+			h.disconnect(errors.New("idle connection").WithTag("duration", h.Handler.IdleTimeout()))
+""",
+    """		case <-idleTimer.C:
+			h.handleDisconnect(errors.New("idle connection").WithTag("duration", h.Handler.IdleTimeout()))
+""", 'funnel-in-disconnect-arm')
+ctl('e5-funnel-without-cancel', 'C08', 'E5', HD,
+    """			h.handleDisconnect(err)
+			if ctx.Err() == nil {
+				// cancel context so go routines can cleanly exit
+				cancel()
+			}""",
+    """			h.handleDisconnect(err)""", 'funnel-then-exit')
+ctl('g5-idle-timer-not-rearmed', 'C08', 'G5', HD,
+    """			idleTimer.Stop()
+			idleTimer.Reset(idleTimeout)
+""",
+    """			idleTimer.Stop()
+""", 'reset-on-message')
+ctl('g6-gauge-never-decremented', 'C08', 'G6', 'websocket/metrics.go',
+    """		}).
+		Dec()""",
+    """		}).
+		Add(0)""", 'HandleDisconnect')
+ctl('c6-send-queue-drops', 'C02', 'C6', HD,
+    """func (h *handler) sendMsg(msg hwebsocket.Msg) {
+	h.sendChan <- msg
+}""",
+    """func (h *handler) sendMsg(msg hwebsocket.Msg) {
+	select {
+	case h.sendChan <- msg:
+	default:
+	}
+}""", 'sendMsg')
+ctl('e2-switch-without-leaving', 'C06', 'E2', RT,
+    """	if h.currentParticipant != nil {
+		h.leaveSession()
+	}
+
+	if !ok {
+		session = models.NewSession(""",
+    """	if !ok {
+		if h.currentParticipant != nil {
+			h.leaveSession()
+		}
+		session = models.NewSession(""", 'HandleParticipantJoin')
+ctl('e3-module-delete-unconditional', 'C04', 'E3', VJ,
+    """	if _, ok := m.currentSession.EntityByID(req.EntityId); !ok {
+		m.state.RemoveEntityActions(req.EntityId)
+	}""",
+    """	m.state.RemoveEntityActions(req.EntityId)""", 'handleEntityDelete')
+
 os.makedirs(OUT, exist_ok=True)
 bad = 0
 names = set()
